@@ -354,6 +354,23 @@ def r17i(ctx):
     sums = [c for c in walk_no_nested(f.node) if isinstance(c, ast.Call) and call_name(c) == "sum" and c.args and isinstance(c.args[0], ast.Name) and c.args[0].id == rv]
     if not sums and not bad:
         bad.append((f.node, "does not sum the run lengths"))
+    # … and the table takes the largest of these over ALL its stored rows: a row left out of the maximum (blank rows "do not count") keeps its cells while the
+    # column declarations are trimmed below it
+    g = repo.func("Table._optimize_width_length")
+    mw = [c for c in ast.walk(g.node) if isinstance(c, ast.Call) and call_name(c) == "minimized_width"]
+    if not mw:
+        raise AnalysisError("R17i: Table._optimize_width_length no longer measures rows with minimized_width()")
+    filt = [i for n_ in ast.walk(g.node) if isinstance(n_, (ast.GeneratorExp, ast.ListComp, ast.SetComp)) for gen in n_.generators for i in gen.ifs]
+    filt += [j for j in ast.walk(g.node) if isinstance(j, (ast.Continue, ast.Break))]
+    srcs = [n_ for n_ in ast.walk(g.node) if isinstance(n_, (ast.GeneratorExp, ast.ListComp, ast.SetComp, ast.For))]
+    whole = any(any(isinstance(c, ast.Call) and call_name(c) in ("_get_rows", "traverse") for c in ast.walk(n_.generators[0].iter if not isinstance(n_, ast.For) else n_.iter)) for n_ in srcs)
+    okw = not filt and whole
+    ctx.instance("R17i", f"{g.file}:{g.ident}", "maximum of minimized_width() over every stored row", ok=okw, nontrivial=True, line=g.node.lineno)
+    if not okw:
+        at = filt[0] if filt else g.node
+        ctx.report("R17i", g, at, f"_optimize_width_length: {norm(at, 40)}",
+                   f"the target width of optimize_width leaves rows out (`{norm(at, 40)}`): a row that is not measured keeps its cells — force_width only shortens a blank repeated tail — "
+                   f"while the column declarations are trimmed to the smaller width, so the row is wider than the declared columns")
     ctx.instance("R17i", f"{f.file}:{f.ident}", "sum of all runs; last run reduced only when the last cell is empty", ok=not bad, nontrivial=True, line=f.node.lineno)
     for n_, why in bad[:2]:
         ctx.report("R17i", f, n_, f"Row.minimized_width {why.split(' without')[0]}: {norm(n_, 40)}",
@@ -597,6 +614,10 @@ from ..selftest import Seed, unparse_seed  # noqa: E402
 _T = "src/odfdo/table.py"
 _R = "src/odfdo/row.py"
 SEEDS = [
+    Seed("optimize_width measures non-blank rows only", "fault", _T, "        return max(row.minimized_width() for row in self._get_rows())",
+         "        return max((row.minimized_width() for row in self._get_rows() if not row.is_empty()), default=1)", "R17i"),
+    Seed("optimize_width tolerates a table without rows", "neutral", _T, "        return max(row.minimized_width() for row in self._get_rows())",
+         "        return max((row.minimized_width() for row in self._get_rows()), default=1)"),
     Seed("is_spanned looks at the column span only", "fault", "src/odfdo/cell.py",
          '        if self.get_attribute("table:number-rows-spanned") is not None:  # noqa: SIM103\n            return True\n        return False', '        return False', "R17j"),
     Seed("to_csv drops trailing falsy values of a row", "fault", _T, "                    line.append(value)\n                csv_writer.writerow(line)  # type: ignore",
